@@ -135,9 +135,20 @@ func (backupManager *BackupManager) DoNativeBackup() error {
 		return err
 	}
 	defer file.Close()
+	// badger's Backup reads through several iterators that each open their own read transaction, so while writers
+	// are active it is not a snapshot: a version committed during the run can be missed by one iterator although
+	// the version reported back (the highest one seen by any iterator) is higher. Only what was committed before
+	// the run started is certain to be in the file, so the cursor never moves past that point; the next run dumps
+	// everything after it again (loading the same key and version twice is harmless).
+	readTxn := backupManager.store.database.NewTransaction(false)
+	committedBefore := readTxn.ReadTs()
+	readTxn.Discard()
 	since, err := backupManager.store.database.Backup(file, backupManager.lastID)
 	if err != nil {
 		return err
+	}
+	if since > committedBefore {
+		since = committedBefore
 	}
 	backupManager.lastID = since
 
